@@ -120,7 +120,8 @@ def _replay(modfile, name, call):
     return p.returncode == 1, (p.stdout + p.stderr)[-300:]
 
 
-def run_xh(pid, prelude, conds, tier, seed, *, assumptions, outside, bounds, default_timeout=None, functions=None):
+def run_xh(pid, prelude, conds, tier, seed, *, assumptions, outside, bounds, default_timeout=None, functions=None,
+           merge_evidence=False):
     t0 = time.time()
     os.makedirs(WORK, exist_ok=True)
     os.makedirs(os.path.join(HERE, "replays"), exist_ok=True)
@@ -240,7 +241,24 @@ def run_xh(pid, prelude, conds, tier, seed, *, assumptions, outside, bounds, def
         },
         "assumptions": assumptions, "wall_s": round(wall, 2), "violations": n_viol,
     }
-    with open(os.path.join(HERE, "evidence", f"{pid}.json"), "w") as f:
+    evp = os.path.join(HERE, "evidence", f"{pid}.json")
+    if merge_evidence and os.path.exists(evp):
+        with open(evp) as f:
+            old = json.load(f)
+        oc, nc = old["coverage"], ev["coverage"]
+        for k in ("states", "transitions", "traces_validated_against_impl", "obligations", "discharged", "inconclusive", "queries"):
+            nc[k] = nc.get(k, 0) + oc.get(k, 0)
+        nc["samples"] = (oc.get("samples") or []) + nc["samples"]
+        nc["functions_encoded"] = sorted(set(oc.get("functions_encoded", [])) | set(nc["functions_encoded"]))
+        nc["solver_time_s"] = round(nc.get("solver_time_s", 0) + oc.get("solver_time_s", 0), 2)
+        nc["symx_part"] = {k: oc.get(k) for k in ("per_scenario", "outcomes", "obligation_families_reached", "bounds", "stubs",
+                                                    "harness_errors", "known_findings_reported", "shim_gaps")}
+        nc["outside_claim"] = sorted(set(oc.get("outside_claim", [])) | set(nc["outside_claim"]))
+        nc["explanation"] = oc.get("explanation", "") + " + " + nc["explanation"]
+        ev["assumptions"] = list(old.get("assumptions", [])) + ev["assumptions"]
+        ev["wall_s"] = round(ev["wall_s"] + old.get("wall_s", 0), 2)
+        ev["violations"] = ev["violations"] + old.get("violations", 0)
+    with open(evp, "w") as f:
         json.dump(ev, f, indent=1, default=str)
     for ln in out_lines:
         print(ln)
